@@ -231,6 +231,18 @@ def threaded():
     if len(set(vals)) != 1 or vals[0] not in ORDERINGS:
         lost("threaded_rodeo.rs: key.fetch_add sites disagree: %r" % vals)
     f.sites["KeyFetchAdd"] = vals[0]
+    # every other atomic access in the non-test, non-hook part of the file must be one of those fetch_adds:
+    # a key counter handled by a separate load and store (or any new atomic) is a structure this model does not know
+    body = f.src.split("#[cfg(test)]")[0]
+    total = len(re.findall(r"Ordering::\w+", body)) - len(re.findall(r"use\s+core::\{[^}]*Ordering", body))
+    hook = 0
+    for m in re.finditer(r"#\[cfg\(lasso_verif\)\]\s*(?:#\[doc\(hidden\)\]\s*)?pub fn verif_\w+[^{]*\{", body):
+        depth, i = 1, m.end()
+        while depth and i < len(body):
+            depth += {"{": 1, "}": -1}.get(body[i], 0); i += 1
+        hook += len(re.findall(r"Ordering::\w+", body[m.end():i]))
+    if total - hook != len(vals) or len(vals) != 2:
+        lost("threaded_rodeo.rs: %d atomic orderings outside hooks/tests, %d key.fetch_add(1, ..) sites (expected 2 and 2): an atomic access the model does not know" % (total - hook, len(vals)))
     return f, {"key_fetch_add_sites": len(vals)}
 
 SITES = ["PushHeadLoad", "PushCasOk", "PushCasFail", "IterLoad", "LenLoad", "LenCasOk", "LenCasFail",
